@@ -142,8 +142,10 @@ def catalogue():
         cat['number:%s' % kind] = ints(0, 2 ** bits - 1)
         cat['number:%s:signed' % kind] = ints(-(2 ** (bits - 1)), 2 ** (bits - 1) - 1)
     cat['sequence'] = ['0', '1', '7', '07', '+7', '-0', '-1', str(2 ** 64 - 1), str(2 ** 64), ' 7', '7.0', '٧', 'x']
-    cat['number:decimal:5:2'] = ['0.00', '1.50', '999.99', '1000.00', '1.5', '1.500', '01.50', '-1.50', '+1.50', '.50', '1.', '1', '-0.00', '1.5x', '1,50', ' 1.50', '١.٥٠']
+    cat['number:decimal:5:2'] = ['0.00', '1.50', '999.99', '1000.00', '1.5', '1.500', '01.50', '-1.50', '+1.50', '.50', '1.', '1', '-0.00', '1.5x', '1,50', ' 1.50', '١.٥٠', '_00.35', '1_0.50', '1.5E+0', '15E-1']
     cat['number:decimal:5:2:signed'] = ['0.00', '-1.50', '-999.99', '-1000.00', '-0.00', '-0.01', '+1.50', '1.50', '-01.50', '--1.50']
+    cat['number:decimal:4:0'] = ['0', '1', '9999', '10000', '1.', '1.0', '-1', '-0', '01', '+1', '١']
+    cat['number:decimal:4:0:signed'] = ['0', '-1', '-9999', '-10000', '-0', '1', '-1.', '-01']
     cat['number:currency'] = ['0.0000', '1.0000', '-1.0000', '-0.0000', '-0.0001', '1.00', '1.00000', '999999999999999.9999', '9999999999999999.9999', '01.0000']
     cat['number:float'] = ['1.500000E+00', '0.000000E+00', '-1.500000E+00', '1.5E+00', '15.000000E-01', '1.500000e+00', '1.500000E+0', '1.500000E+000', 'NaN', 'INF',
                            '-0.000000E+00', '0.500000E+00', '1.500000E+38', '1.50000E+00', '1.5000000E+00', ' 1.500000E+00', '+1.500000E+00', '1.500000', '١.٥٠٠٠٠٠E+٠٠']
